@@ -5,6 +5,9 @@
 package ids
 
 import (
+	"github.com/lindb/lindb/models"
+	"github.com/lindb/lindb/constants"
+	"errors"
 	"fmt"
 	"math/rand"
 	"path/filepath"
@@ -90,6 +93,7 @@ func (H) Gen(prop string, rng *rand.Rand, tier string) *core.Plan {
 		p.Ops = append(p.Ops, core.Op{K: "end", S: []string{"sync", "flush", "reopen", "reopen", "crash", "crash"}[rng.Intn(6)]})
 	}
 	p.Cfg["maporder"] = rng.Intn(2) // tape-chosen iteration order of Go maps in the code under test
+	p.Cfg["serieslimit"] = []int{0, 0, 2, 3}[rng.Intn(4)] // series limit per metric of the database (0 = the default)
 	if rng.Intn(4) == 0 {
 		p.Cfg["ioerr_pm"] = []int{30, 100, 300}[rng.Intn(3)]
 		p.Cfg["ioerr_max"] = 1 + rng.Intn(2)
@@ -234,6 +238,11 @@ func (n *node) genSeries(shard int, ns, name string, ts int) {
 	}
 	sid, err := idb.GenSeriesID(mid, row)
 	scribble(blk) // the row's block is reused once the row is done
+	if err != nil && errors.Is(err, constants.ErrTooManySeries) && n.c.Plan.C("serieslimit", 0) > 0 {
+		// the metric has reached its series limit: the series is rejected and holds no ID
+		n.c.Sim.Probe("series-rejected-by-limit")
+		return
+	}
 	if err != nil {
 		n.c.Anomaly("GenSeriesID: %v", err)
 		return
@@ -302,6 +311,13 @@ func (n *node) genSeries(shard int, ns, name string, ts int) {
 func (n *node) open() error {
 	kv.InitStoreManager(kv.VerifNewStoreManager())
 	var err error
+	if l := n.c.Plan.C("serieslimit", 0); l > 0 {
+		limits := models.NewDefaultLimits()
+		limits.MaxSeriesPerMetric = uint32(l)
+		models.SetDatabaseLimits("db", limits)
+	} else {
+		models.SetDatabaseLimits("db", models.NewDefaultLimits())
+	}
 	n.meta, err = index.NewMetricMetaDatabase("db", filepath.Join(n.dir, "meta"))
 	if err != nil {
 		return err
